@@ -26,7 +26,7 @@ impl Prop for C17 {
     fn meta() -> Meta {
         Meta {
             level: "exploration",
-            rule: "A session (program with INPUT/STOP from the C03/C08 grammar, reply script, breaks, commands at STOP points) is executed four times on the real interpreter, once per on/off combination of tracing and warnings (fields, or the TRACE command), each time in lock-step with the reference model: non-trace/non-warning records, states and errors must equal the model's (hence each other's); Trace records with immediate repeats collapsed must equal the model's executed-line sequence; Warning records must equal the model's predicate (unassigned variable read / absent array touched) in order, warnings of a failing statement excluded; immediate lines must not be traced; after each run `PRINT Q8` and `Q8(2) = 5` typed at the prompt give exactly one warning iff warnings are on; the four final probe snapshots must be identical. distinct_nontrivial = distinct (program, ticks, ...) hashes among runs with >= 5 turns.",
+            rule: "A session (program with INPUT/STOP from the C03/C08 grammar, reply script, breaks, commands at STOP points) is executed four times on the real interpreter, once per on/off combination of tracing and warnings (fields, or the TRACE command), each time in lock-step with the reference model: non-trace/non-warning records, states and errors must equal the model's (hence each other's); Trace records with immediate repeats collapsed must equal the model's executed-line sequence; Warning records must equal the model's predicate (unassigned variable read / absent array touched) in order, warnings of a failing statement excluded; immediate lines must not be traced; after a run without TRACE/NOTRACE commands a fresh line that is jumped to is traced iff the host set tracing; after each run `PRINT Q8` and `Q8(2) = 5` typed at the prompt give exactly one warning iff warnings are on; the four final probe snapshots must be identical. distinct_nontrivial = distinct (program, ticks, ...) hashes among runs with >= 5 turns.",
             real: &["abasic-core Interpreter (trace emission in evaluate_statement, warn paths, TRACE/NOTRACE commands)"],
             stub: &["the host", "reference model sim/src/model.rs (trace path, warning predicate)"],
             assumptions: &[
